@@ -338,10 +338,29 @@ theorem decorate_comments_aux (ts : List Token) :
 /-- projection to (token, role) -/
 def proj (p : DTok × Role) : Token × Role := (p.1.tok, p.2)
 
+theorem giveLead_proj (cs : List CKey) (l l' : List (DTok × Role)) (h : giveLead cs l = some l') :
+    l'.map proj = l.map proj := by
+  cases l with
+  | nil => simp [giveLead] at h
+  | cons n rest =>
+    obtain ⟨n, r⟩ := n
+    simp only [giveLead, Option.some.injEq] at h
+    subst h
+    simp [proj]
+
 theorem absorb_proj (x : DTok × Role) (acc : List (DTok × Role)) :
     (absorb x acc).map proj = proj x :: acc.map proj := by
   unfold absorb
-  split <;> simp [proj]
+  split
+  · rename_i s rest
+    split
+    · simp [proj]
+    · split
+      · rename_i rest' hg
+        have := giveLead_proj _ _ _ hg
+        simp [proj, this]
+      · rfl
+  · rfl
 
 theorem moveSepTrail_proj (l : List (DTok × Role)) : (moveSepTrail l).map proj = l.map proj := by
   induction l with
@@ -384,15 +403,34 @@ theorem commentsOf_append (a b : List DTok) : commentsOf (a ++ b) = commentsOf a
 theorem commentsOf_cons (a : DTok) (b : List DTok) : commentsOf (a :: b) = a.lead ++ a.trail ++ commentsOf b := by
   simp [commentsOf, DTok.comments]
 
+theorem giveLead_comments (cs : List CKey) (l l' : List (DTok × Role)) (h : giveLead cs l = some l') :
+    commentsOf (l'.map (·.1)) = cs ++ commentsOf (l.map (·.1)) := by
+  cases l with
+  | nil => simp [giveLead] at h
+  | cons n rest =>
+    obtain ⟨n, r⟩ := n
+    simp only [giveLead, Option.some.injEq] at h
+    subst h
+    simp [commentsOf_cons]
+
 theorem absorb_comments (x : DTok × Role) (acc : List (DTok × Role)) :
     (commentsOf ((absorb x acc).map (·.1))).Perm (commentsOf ((x :: acc).map (·.1))) := by
   unfold absorb
   split
   · rename_i s rest
-    simp only [List.map_cons, commentsOf_cons, List.append_nil, List.append_assoc]
-    refine List.Perm.append_left _ (List.Perm.append_left _ ?_)
-    rw [← List.append_assoc, ← List.append_assoc]
-    exact List.Perm.append_right _ List.perm_append_comm
+    split
+    · rename_i he
+      have he' : x.1.trail = [] := by simpa using he
+      simp only [List.map_cons, commentsOf_cons, List.append_nil, List.append_assoc, he']
+      refine List.Perm.append_left _ ?_
+      rw [← List.append_assoc, ← List.append_assoc]
+      exact List.Perm.append_right _ List.perm_append_comm
+    · split
+      · rename_i rest' hg
+        simp only [List.map_cons, commentsOf_cons, List.append_nil, List.append_assoc,
+          giveLead_comments _ _ _ hg]
+        exact List.Perm.refl _
+      · exact List.Perm.refl _
   · exact List.Perm.refl _
 
 theorem moveSepTrail_comments (l : List (DTok × Role)) :
